@@ -207,6 +207,33 @@ def bounded_worker(tier):
                 cases.add((tname, "edge" + str(sub)))
                 if sorted(changed) != sorted(want):
                     bad.append((tname, "edge", sub, changed, want))
+        # wiring and assigning INTERLEAVED: creating a further synapse (of the same or another type) leaves every existing row of
+        # .edges - values assigned through views and states included - as it was; the result is the one of connect-all-then-set
+        # (seeded change C09_d: connect() re-initialised all rows of the type)
+        import jaxley.synapses as SY
+        from jaxley.connect import connect
+        bad_seq = []
+        for order in ([0, 1, 2, 3, 4, 5], [4, 2, 0, 5, 3, 1]):
+            net = template()
+            assigned = {}
+            for step, e in enumerate(order):
+                p_, q_, t_ = w[e]
+                connect(net.select(nodes=[p_]), net.select(nodes=[q_]), getattr(SY, TYPES[t_])())
+                row = len(net.edges) - 1
+                key = {"I": "IonotropicSynapse_gS", "T": "TestSynapse_gC", "R": "TanhRateSynapse_slope"}[t_]
+                val = 0.001 * (step + 2)
+                net.select(edges=[row]).set(key, val)
+                assigned[(row, key)] = val
+                if t_ == "I":
+                    net.select(edges=[row]).set("IonotropicSynapse_s", 0.25 + 0.1 * step)
+                    assigned[(row, "IonotropicSynapse_s")] = 0.25 + 0.1 * step
+                for (r_, k_), v_ in assigned.items():
+                    if not net.edges.loc[r_, k_] == v_:
+                        bad_seq.append(f"order {order}: after creating synapse #{step} ({TYPES[t_]}), edges.loc[{r_}, {k_}] = {net.edges.loc[r_, k_]}, assigned {v_}")
+                out["evals"] += 1
+            cases.add(("interleaved", str(order)))
+        out["results"].append(_res("connect after set: creating a further synapse leaves the values assigned to existing synapses untouched [bounded: 2 creation orders x 6 synapses of 3 types, parameter and state assigned after every connect]",
+                                   not bad_seq, " | ".join(bad_seq[:3]), backend="bounded-evaluation"))
         out["distinct"] = len(cases)
         out["results"].append(_res("set through synapse-type and edge views changes exactly the selected rows of .edges [bounded: 6-edge network, all single rows / all rows / first+last per type, 3 global edge views]",
                                    not bad, str(bad[:3]), backend="bounded-evaluation"))
